@@ -4,6 +4,7 @@
    composed from those. All statements quantify over every `Nat` height / expiry / delta. -/
 import LdkModel.Model.Timing
 import LdkModel.Proofs.NodeStep
+import LdkModel.Proofs.NodeRun
 namespace Ldk.C08
 open Ldk Ldk.Timing Ldk.NodeStep
 
@@ -263,6 +264,173 @@ theorem preimage_in_time_claims_upstream (s : St) (p delta : Nat) (hd : MIN_CLTV
 theorem reannounce_is_noop (s : St) (h : Nat) (x : BbuExit) (c t : Bool) (hb : s.monBest = h)
     (hc : (s.inCell && holdingCellTimedOut h s.outCltv) = false) : nodeStep s (.block h x c t) = (s, []) :=
   reannounce_noop s h x c t hb hc
+
+/-- WHOLE HISTORIES (induction over `run`, any start state, any list of blocks / jumps / re-announced heights / preimage
+    arrivals / holding-cell releases, any exits): the upstream HTLC is resolved off chain AT MOST ONCE — never failed
+    back twice, never failed back and claimed — not at all when it was already resolved, and whenever the log shows no
+    resolution the upstream state is unchanged in that respect (resolutions logged + resolved before = resolved after). -/
+theorem upstream_resolved_at_most_once (s : St) (es : List Ev) :
+    logRes (run s es).2 ≤ 1 ∧ (s.up ≠ .pending → logRes (run s es).2 = 0) ∧
+    ((run s es).1.up = .pending → logRes (run s es).2 = 0 ∧ s.up = .pending) ∧
+    (s.up = .pending → logRes (run s es).2 = 1 → (run s es).1.up ≠ .pending) := by
+  have hb := run_bal es s
+  have h1 := resolved_le_one (run s es).1
+  refine ⟨by omega, ?_, ?_, ?_⟩
+  · intro hp
+    have : resolved s = 1 := by simp [resolved, hp]
+    omega
+  · intro hp
+    have h0 : resolved (run s es).1 = 0 := by simp [resolved, hp]
+    refine ⟨by omega, ?_⟩
+    have : resolved s = 0 := by omega
+    unfold resolved at this
+    split at this
+    · assumption
+    · omega
+  · intro hp hl hf
+    have h0 : resolved (run s es).1 = 0 := by simp [resolved, hf]
+    omega
+example : logRes (run { inCltv := 188, outCltv := 140, monBest := 100, inCell := false, outLive := true }
+    [.block 142 .plain false false, .block 150 .plain false false, .block 151 .plain true false,
+     .block 152 .plain false true, .block 157 .plain false false, .preimage, .block 190 .plain false false]).2 = 1 := by decide
+
+/-- WHOLE HISTORIES: in no history (any start state, any delivered heights incl. jumps and re-announcements, any exits,
+    preimage arrivals, holding-cell releases) does the node put its downstream commitment on the wire before the outbound
+    HTLC's `expiry + grace` — a slow downstream peer always gets the whole grace period, however the blocks arrive. -/
+theorem never_onchain_downstream_before_grace (s : St) (es : List Ev) (h : Nat)
+    (hm : (h, Act.broadcastDown) ∈ (run s es).2) : outboundTrigger s.outCltv ≤ h := by
+  obtain ⟨p, hp⟩ := run_down es s h hm
+  exact (outbound_trigger_iff h s.outCltv p).1 hp
+example : (150, Act.broadcastDown) ∈ (run { inCltv := 188, outCltv := 140, monBest := 100, inCell := false, outLive := true }
+    [.block 142 .plain false false, .block 150 .plain false false]).2 := by decide
+
+/-! ### Round 5: intercepted HTLCs held by the node; which commitments the on-chain trigger scans -/
+
+/-- The intercepted-HTLC timeout of `do_chain_event` fires exactly from `out − HTLC_FAIL_BACK_BUFFER` on. -/
+theorem intercept_timeout_iff (h out : Nat) :
+    interceptTimedOut h out = true ↔ out ≤ h + HTLC_FAIL_BACK_BUFFER := by
+  simp only [interceptTimedOut]; timing_omega
+example : interceptTimedOut 101 140 = true ∧ interceptTimedOut 100 140 = false := by decide
+
+/-- An intercepted HTLC that the node still holds after block `h` can be released (`forward_intercepted_htlc`) at any
+    height up to `h + CLTV_CLAIM_BUFFER` without the outgoing HTLC being in the holding-cell timeout window or in the
+    monitor's outbound on-chain window, and the upstream HTLC then still has more than the fail-back buffer plus its
+    delta left. -/
+theorem held_intercept_release_is_safe (h h' out inc delta : Nat) (hheld : interceptTimedOut h out = false)
+    (hin : out + delta ≤ inc) (hh : h' ≤ h + CLTV_CLAIM_BUFFER) :
+    holdingCellTimedOut h' out = false ∧ shouldBroadcastFor h' out true false = false ∧
+    h + HTLC_FAIL_BACK_BUFFER + delta < inc := by
+  simp only [interceptTimedOut] at hheld
+  refine ⟨?_, ?_, ?_⟩ <;> timing_omega
+example : interceptTimedOut 100 141 = false ∧ (141 + 48 ≤ 189) ∧ 136 ≤ 100 + CLTV_CLAIM_BUFFER := by decide
+
+/-- Whole histories (any list of delivered heights: single blocks, jumps, re-announced heights): the intercepted HTLC
+    is failed back at the FIRST delivered height that is within the fail-back buffer of its outgoing expiry … -/
+theorem intercept_hold_some (out : Nat) (hs : List Nat) (h : Nat) (hf : interceptHold out hs = some h) :
+    ∃ pre suf, hs = pre ++ h :: suf ∧ out ≤ h + HTLC_FAIL_BACK_BUFFER ∧ ∀ a ∈ pre, a + HTLC_FAIL_BACK_BUFFER < out := by
+  induction hs with
+  | nil => simp [interceptHold] at hf
+  | cons a t ih =>
+    unfold interceptHold at hf ih
+    rw [List.find?_cons] at hf
+    cases hp : interceptTimedOut a out with
+    | true =>
+      rw [hp] at hf
+      have ha : a = h := by simpa using hf
+      subst ha
+      exact ⟨[], t, rfl, (intercept_timeout_iff a out).1 hp, by simp⟩
+    | false =>
+      rw [hp] at hf
+      obtain ⟨pre, suf, he, hle, hall⟩ := ih hf
+      refine ⟨a :: pre, suf, by rw [he]; rfl, hle, ?_⟩
+      intro b hb
+      rcases List.mem_cons.1 hb with hb | hb
+      · subst hb
+        have : ¬ (out ≤ b + HTLC_FAIL_BACK_BUFFER) := fun hc => by
+          have := (intercept_timeout_iff b out).2 hc; rw [hp] at this; cases this
+        omega
+      · exact hall b hb
+
+/-- … and is still held exactly when no delivered height reached that point. -/
+theorem intercept_hold_none (out : Nat) (hs : List Nat) :
+    interceptHold out hs = none ↔ ∀ a ∈ hs, a + HTLC_FAIL_BACK_BUFFER < out := by
+  unfold interceptHold
+  rw [List.find?_eq_none]
+  constructor
+  · intro hh a ha
+    have h1 := hh a ha
+    have : ¬ (out ≤ a + HTLC_FAIL_BACK_BUFFER) := fun hc => h1 ((intercept_timeout_iff a out).2 hc)
+    omega
+  · intro hh a ha hc
+    have := (intercept_timeout_iff a out).1 hc
+    have := hh a ha
+    omega
+example : interceptHold 140 [99, 100, 101, 102] = some 101 ∧ interceptHold 140 [99, 100] = none ∧
+    interceptHold 140 [90, 120, 121] = some 120 := by decide
+
+/-- The automatic fail-back of an intercepted HTLC comes in time for the upstream channel: if the HTLC was still held
+    at the previously delivered height and the next delivered height is at most `k ≤ MIN_CLTV_EXPIRY_DELTA` blocks
+    later, then at that height the upstream HTLC is more than a grace period plus a claim buffer from its expiry (so the
+    fail-back completes off chain and the node's own inbound on-chain trigger is not reached), for every delta at or
+    above the minimum. -/
+theorem intercept_failback_in_time (hprev h out inc delta k : Nat) (hheld : interceptTimedOut hprev out = false)
+    (hk : h ≤ hprev + k) (hkk : k ≤ MIN_CLTV_EXPIRY_DELTA) (hd : MIN_CLTV_EXPIRY_DELTA ≤ delta) (hin : out + delta ≤ inc) :
+    h + LATENCY_GRACE_PERIOD_BLOCKS + CLTV_CLAIM_BUFFER < inc ∧ shouldBroadcastFor h inc false true = false := by
+  simp only [interceptTimedOut] at hheld
+  refine ⟨?_, ?_⟩ <;> timing_omega
+example : interceptTimedOut 100 140 = false ∧ 101 ≤ 100 + 1 ∧ 1 ≤ MIN_CLTV_EXPIRY_DELTA ∧ 140 + 48 ≤ 188 := by decide
+
+/-- Every commitment whose HTLCs can still reach the chain (our current one, the counterparty's current and previous
+    ones) is scanned by `should_broadcast_holder_commitment_txn`, each under its own side's flag. -/
+theorem scan_covers_every_commitment (s : ScanSet) : (s, decide (s = .holderCurrent)) ∈ scanList := by
+  cases s <;> decide
+
+/-- In every scan the direction derived from the flag is the true one: an HTLC we offered is treated as outbound and
+    an HTLC offered to us as inbound, whichever commitment it is found in. -/
+theorem scan_direction_correct : ∀ p ∈ scanList, ∀ w : Bool, scanHtlcOutbound p.2 (offeredIn p.1 w) = w := by
+  decide
+
+/-- The monitor's on-chain trigger as a whole: it fires iff no funding spend is confirmed / awaiting confirmation and
+    SOME HTLC in ANY of the three commitments meets the per-HTLC test in its true direction — so `outbound_trigger_iff`
+    / `inbound_trigger_iff` hold for HTLCs that are (so far) only in the counterparty's commitment as well. -/
+theorem mon_broadcast_iff (c a : Bool) (h : Nat) (htlcs : List MonHtlc) :
+    monShouldBroadcast c a h htlcs = true ↔
+      (c = false ∧ a = false ∧ ∃ x ∈ htlcs, shouldBroadcastFor h x.cltv x.weOffered x.preimage = true) := by
+  unfold monShouldBroadcast broadcastGateClosed
+  cases c <;> cases a <;> simp only [Bool.or_false, Bool.or_true, if_true, if_false, Bool.false_eq_true,
+    true_and, false_and, and_false, reduceCtorEq]
+  constructor
+  · intro hh
+    obtain ⟨⟨s, f⟩, hmem, hx⟩ := List.any_eq_true.1 hh
+    obtain ⟨x, hxm, hx2⟩ := List.any_eq_true.1 hx
+    refine ⟨x, hxm, ?_⟩
+    have hdir := scan_direction_correct (s, f) hmem x.weOffered
+    simp only [Bool.and_eq_true, beq_iff_eq] at hx2
+    obtain ⟨hs, hb⟩ := hx2
+    subst hs
+    simp only at hdir
+    rw [hdir] at hb
+    exact hb
+  · rintro ⟨x, hxm, hb⟩
+    refine List.any_eq_true.2 ⟨(x.set, decide (x.set = .holderCurrent)), scan_covers_every_commitment x.set, ?_⟩
+    refine List.any_eq_true.2 ⟨x, hxm, ?_⟩
+    have hdir := scan_direction_correct _ (scan_covers_every_commitment x.set) x.weOffered
+    simp only at hdir
+    simp only [Bool.and_eq_true, beq_iff_eq, true_and]
+    rw [hdir]
+    exact hb
+example : monShouldBroadcast false false 143 [⟨.counterpartyCurrent, true, 140, false⟩] = true ∧
+    monShouldBroadcast false false 142 [⟨.counterpartyCurrent, true, 140, false⟩] = false ∧
+    monShouldBroadcast true false 143 [⟨.holderCurrent, true, 140, false⟩] = false := by decide
+
+/-- An outbound HTLC that is in ANY unrevoked commitment makes the monitor go on chain exactly from `expiry + grace` on
+    (as long as no funding spend is confirmed). -/
+theorem outbound_trigger_any_commitment (h cltv : Nat) (s : ScanSet) (pre : Bool) :
+    monShouldBroadcast false false h [⟨s, true, cltv, pre⟩] = true ↔ outboundTrigger cltv ≤ h := by
+  rw [mon_broadcast_iff]
+  simp only [List.mem_singleton, exists_eq_left, true_and]
+  exact outbound_trigger_iff h cltv pre
+example : outboundTrigger 140 ≤ 143 := by decide
 
 example : (run { inCltv := 188, outCltv := 140, monBest := 100, inCell := false, outLive := true }
     [.block 142 .plain false false, .block 150 .plain false false, .block 151 .plain true false,
